@@ -43,6 +43,8 @@ struct Hdr {
     cfgbuf: usize,
     qt: Option<u64>,
     lt: u64,
+    /// which of the equivalent builder sequences `build_cfg` uses (a hash of the header tokens)
+    order: u64,
 }
 
 struct QSpec {
@@ -144,6 +146,10 @@ fn parse_hdr(t: &[&str]) -> Option<Hdr> {
     let cfgbuf = t[4].strip_prefix("cfgbuf=")?.parse().ok()?;
     let qt = ms_or_none(t[5].strip_prefix("qt=")?)?;
     let lt = t[6].strip_prefix("lt=")?.parse().ok()?;
+    let mut order: u64 = 0xcbf2_9ce4_8422_2325;
+    for b in t.iter().flat_map(|x| x.bytes()) {
+        order = (order ^ b as u64).wrapping_mul(0x100_0000_01b3);
+    }
     Some(Hdr {
         rt: rt.to_string(),
         rd,
@@ -152,6 +158,7 @@ fn parse_hdr(t: &[&str]) -> Option<Hdr> {
         cfgbuf,
         qt,
         lt,
+        order: order >> 20,
     })
 }
 
@@ -608,21 +615,42 @@ impl Drop for Server {
 // running the history
 // ------------------------------------------------------------------------------------------------
 
+/// The configuration the header describes, built by one of several builder sequences that must all
+/// give the same client: options before or after the name server, the name server given at
+/// construction or set later (also on a configuration first made for a resolver of the other address
+/// family, with the wildcard bind address following), explicit or wildcard bind address. Which sequence
+/// is used is a function of the header tokens, so a request line replays exactly.
 fn build_cfg(h: &Hdr, addr: SocketAddr) -> ClientConfig {
-    ClientConfig::with_nameserver(addr)
-        .set_bind_addr("127.0.0.1:0".parse().unwrap())
-        .set_recursion(if h.rd { Recursion::On } else { Recursion::Off })
-        .set_edns(match h.edns {
-            None => EDns::Off,
-            Some((version, udp_payload_size)) => EDns::On {
-                version,
-                udp_payload_size,
-            },
-        })
-        .set_protocol_strategy(h.strat)
-        .set_buffer_size(h.cfgbuf)
-        .set_query_timeout(h.qt.map(Duration::from_millis))
-        .set_query_lifetime(Duration::from_millis(h.lt))
+    let opts = |c: ClientConfig, part: u8| -> ClientConfig {
+        // part 0: strategy + EDNS + recursion, part 1: buffer size + timers
+        if part == 0 {
+            c.set_protocol_strategy(h.strat)
+                .set_edns(match h.edns {
+                    None => EDns::Off,
+                    Some((version, udp_payload_size)) => EDns::On {
+                        version,
+                        udp_payload_size,
+                    },
+                })
+                .set_recursion(if h.rd { Recursion::On } else { Recursion::Off })
+        } else {
+            c.set_buffer_size(h.cfgbuf)
+                .set_query_timeout(h.qt.map(Duration::from_millis))
+                .set_query_lifetime(Duration::from_millis(h.lt))
+        }
+    };
+    let local: SocketAddr = "127.0.0.1:0".parse().unwrap();
+    let v6: SocketAddr = "[2001:db8::53]:53".parse().unwrap();
+    let other4: SocketAddr = "192.0.2.53:53".parse().unwrap();
+    match h.order % 8 {
+        0 | 1 => opts(opts(ClientConfig::with_nameserver(addr).set_bind_addr(local), 0), 1),
+        2 => opts(opts(ClientConfig::with_nameserver(addr), 1), 0),
+        3 => opts(opts(ClientConfig::new(), 0), 1).set_nameserver(addr),
+        4 => opts(opts(ClientConfig::with_nameserver(v6), 0), 1).set_nameserver(addr),
+        5 => opts(opts(ClientConfig::with_nameserver(v6), 0).set_nameserver(addr), 1),
+        6 => opts(opts(ClientConfig::with_nameserver(other4), 1), 0).set_nameserver(addr).set_bind_addr(local),
+        _ => opts(opts(ClientConfig::with_nameserver(v6).set_bind_addr(local), 0), 1).set_nameserver(addr),
+    }
 }
 
 fn show_raw(r: &Option<rsdns::Result<usize>>, buf: &[u8]) -> (String, usize) {
@@ -1397,7 +1425,18 @@ fn gen_c12(r: &mut Rng, index: u64) -> String {
     let tc4 = if strat12 == "notcp" { 2 } else { 1 };
     let mut e0: Vec<String> = (0..n).map(|_| decoy_tc(r, &q, buf, tc4)).collect();
     let mut udp;
-    if r.chance(4, 5) {
+    if r.chance(1, 7) {
+        // decoys arriving one millisecond apart while the first attempt's timeout expires: the expiry
+        // is noticed right after a datagram was skipped, not by the socket. The query is re-sent and
+        // the reply to the second transmission matches.
+        let qt = h.qt.unwrap_or(400);
+        let mut e0: Vec<String> = vec![format!("p{}", qt.saturating_sub(12))];
+        for _ in 0..24 {
+            e0.push(decoy_tc(r, &q, buf, tc4));
+            e0.push("p1".to_string());
+        }
+        udp = vec![e0, vec![matching(&q)]];
+    } else if r.chance(4, 5) {
         let fin = match r.below(10) {
             0 | 1 => format!("IIII{}", hx(&msg_tail(0x8180, 1, 0, &q.question(true), &[]))),
             2 => format!("IIII{}", hx(&msg_tail(0x0100, 1, 0, &q.question(false), &[]))),
@@ -1490,8 +1529,15 @@ fn seg_hex(stream: &[u8], has_id: bool, a: usize, b: usize) -> String {
 /// gets to TCP through the fallback (strategy Udp + a truncated matching UDP answer).
 fn gen_c14(r: &mut Rng, index: u64) -> String {
     let q = plain_q(r);
-    let buf = *r.pick(&[512usize, 600, 1024]);
-    let n = *r.pick(&[0usize, 1, 2, 12, 17, 511, 512, buf - 1, buf, buf + 1, 1000, 65535]);
+    // one case in five with a caller's buffer at or beyond the 16-bit range of the prefix: every
+    // announced length fits it
+    let big = r.chance(1, 5);
+    let buf = if big { *r.pick(&[65535usize, 65536, 65537, 66136, 131072]) } else { *r.pick(&[512usize, 600, 1024]) };
+    let n = if big {
+        *r.pick(&[0usize, 1, 2, 12, 17, 511, 512, 600, 601, 1000, 1100, 65535])
+    } else {
+        *r.pick(&[0usize, 1, 2, 12, 17, 511, 512, buf - 1, buf, buf + 1, 1000, 65535])
+    };
     // one case in three reaches TCP through the fallback: strategy Udp, a truncated matching answer
     let via_udp = r.chance(1, 3);
     let mut h = plain_hdr(r, index, if via_udp { "udp" } else { "tcp" });
@@ -1768,7 +1814,7 @@ fn gen_c16(r: &mut Rng, index: u64) -> String {
     let cfgbuf = *r.pick(&[512usize, 1232]);
     let nq = r.range(2, 5) as usize;
     // 0 raw, 1 rrset, 2 silence, 3 invalid name, 4 malformed (rrset), 5 tcp oversize, 6 late
-    // duplicate, 7 drop
+    // duplicate, 7 drop, 8 tcp response cut short (the server closes inside the announced body)
     let mut kinds: Vec<u8> = Vec::new();
     let mut silent = 0;
     for i in 0..nq {
@@ -1776,7 +1822,10 @@ fn gen_c16(r: &mut Rng, index: u64) -> String {
             kinds.push(r.below(2) as u8);
             break;
         }
-        let mut k = r.below(8) as u8;
+        let mut k = r.below(9) as u8;
+        if k == 8 && strat != "tcp" {
+            k = 0;
+        }
         if k == 2 {
             if silent >= 2 {
                 k = 0;
@@ -1935,6 +1984,26 @@ fn gen_c16(r: &mut Rng, index: u64) -> String {
                         (0..n).map(|_| dup.clone()).collect(),
                     );
                 }
+            }
+            8 => {
+                // the prefix announces the whole response, the server closes after k of its octets: the
+                // rest of the client's buffer still holds what earlier exchanges left there
+                let na = r.range(1, 3) as usize;
+                if r.chance(1, 2) {
+                    api = "rrset";
+                    q.qtype = 1;
+                    q.qclass = 1;
+                }
+                let ans = a_records(r, na);
+                let tail = msg_tail(0x8180, 1, na as u16, &q.question(false), &ans);
+                let full = tcp_framed("IIII", &tail);
+                let total = full.len() / 2;
+                let k = match r.below(3) {
+                    0 => total - 1,
+                    1 => 2 + 12 + q.question(false).len(),
+                    _ => r.range(4, total as u64 - 1) as usize,
+                };
+                tcp.push(vec![full[..2 * k.clamp(4, total - 1)].to_string(), "c".to_string()]);
             }
             _ => {
                 drop = Some(if short { r.range(10, 30) } else { r.range(10, 50) });
